@@ -393,13 +393,16 @@ class Embedding(Op):
     name = "embedding"
     exact_one = True
     coords = {"batch": BATCHES, "n": [4, 1, 7], "V": [6, 2, 11], "D": [3, 1, 5], "padding_idx": [None, 0, -1],
-              "max_norm": [None, 1.0], "norm_type": [2.0, 1.0], "dtype": DT}
+              "max_norm": [None, 1.0], "norm_type": [2.0, 1.0], "pad_hit": [True, False], "dtype": DT}
     unsupported = [{"scale_grad_by_freq": True}, {"sparse": True}]
 
     def make(self, c, g):
         import torch
 
         idx = torch.randint(0, c["V"], c["batch"] + [c["n"]], generator=g)
+        if c.get("padding_idx") is not None and not c.get("pad_hit", True) and c["V"] > 1:
+            pad = c["padding_idx"] % c["V"]
+            idx = torch.where(idx == pad, (idx + 1) % c["V"], idx)  # the padding row is never looked up
         return {"input": idx, "weight": _randn(g, [c["V"], c["D"]], c["dtype"])}
 
     def unit(self, t, c, **extra):
